@@ -56,7 +56,7 @@ func c06Setup(prm c06Params) func(c *fw.Ctx, name string) explore.Setup {
 				conn := mkConn(st.p, k)
 				bg := vctx.Background()
 				// the peer echoes the Close frame it sees with the same payload
-				if prm.Mode != "orders" {
+				if prm.Mode != "orders" && prm.Mode != "orders-closeread" {
 					w.GoHarness("peer", false, c06Peer(st, k, prm))
 				}
 				_ = func() {
@@ -95,6 +95,35 @@ func c06Setup(prm c06Params) func(c *fw.Ctx, name string) explore.Setup {
 				}
 				if prm.Pinger {
 					w.GoHarness("pinger", false, func() { conn.Ping(bg) })
+				}
+				if prm.Mode == "orders-closeread" {
+					// the connection is closed (by Close or CloseNow), CloseRead is called on it
+					// for the first time, then Close and CloseNow once more
+					call := func(name string, f func() error) func() {
+						cl := &c06Call{name: name}
+						st.calls = append(st.calls, cl)
+						return func() {
+							st.clock++
+							cl.start = st.clock
+							cl.err = f()
+							st.clock++
+							cl.end = st.clock
+							cl.done = true
+						}
+					}
+					first := call("CloseNow", func() error { return conn.CloseNow() })
+					if prm.PeerEOF {
+						first = call("Close", func() error { return conn.Close(websocket.StatusNormalClosure, "") })
+					}
+					lateClose := call("Close-after-CloseRead", func() error { return conn.Close(websocket.StatusNormalClosure, "") })
+					lateCloseNow := call("CloseNow-after-CloseRead", func() error { return conn.CloseNow() })
+					w.GoHarness("seq", true, func() {
+						first()
+						conn.CloseRead(bg)
+						lateClose()
+						lateCloseNow()
+					})
+					return
 				}
 				if prm.Mode == "orders" {
 					call := func(name string, f func() error) func() {
@@ -183,7 +212,7 @@ func c06Oracle(c *fw.Ctx, w *vs.World, name string, prm c06Params, st *c06State)
 		c.OutcomeStr(name + "|stuck") // termination is C09's subject
 		return
 	}
-	if prm.Mode == "orders" {
+	if prm.Mode == "orders" || prm.Mode == "orders-closeread" {
 		out := ""
 		for _, cl := range st.calls {
 			out += fmt.Sprintf("%s:%v ", cl.name, cl.err == nil)
@@ -242,6 +271,10 @@ func c06Scenarios(tier string) []scenario {
 		}
 		prm := c06Params{Name: "orders", K: k, Mode: "orders"}
 		scs = append(scs, scenario{Name: prm.Name + "/" + k.String(), Cfg: tierCfg(tier, P(1), P(2)), Setup: c06Setup(prm)})
+		for _, viaClose := range []bool{false, true} {
+			prm := c06Params{Name: fmt.Sprintf("orders-closeread-%v", viaClose), K: k, Mode: "orders-closeread", PeerEOF: viaClose}
+			scs = append(scs, scenario{Name: prm.Name + "/" + k.String(), Cfg: tierCfg(tier, P(2), P(-1)), Setup: c06Setup(prm)})
+		}
 	}
 	return scs
 }
